@@ -294,23 +294,28 @@ def fast_subset_text(prog, rng):
 
     stm = []
     for k, it in enumerate(prog["items"]):
+        # the writer puts ", " between terminals / port connections: the blank run after a comma is never empty;
+        # an unconnected pin is written `.p()` with nothing between the parentheses
         if it["k"] == "gate":
             args = [it["out"]] + [opnd(e) for e in it["ins"]]
-            stm.append(it["t"] + W() + "g_%d" % k + w() + "(" + w() + ("," + w()).join(args) + w() + ");")
+            stm.append(it["t"] + W() + "g_%d" % k + w() + "(" + w() + ("," + W()).join(args) + w() + ");")
         elif it["k"] == "assign":
             stm.append("assign" + W() + it["lhs"] + w() + "=" + w() + opnd(it["rhs"]) + w() + ";")
         else:
-            cs = ["." + p + w() + "(" + w() + ("" if e is None else opnd(e)) + w() + ")" for p, e in it["conns"]]
-            stm.append(it["type"] + W() + it["inst"] + w() + "(" + w() + ("," + w()).join(cs) + w() + ");")
+            cs = ["." + p + w() + ("()" if e is None else "(" + w() + opnd(e) + w() + ")") for p, e in it["conns"]]
+            stm.append(it["type"] + W() + it["inst"] + w() + "(" + w() + ("," + W()).join(cs) + w() + ");")
     rng.shuffle(stm)
     ports = []
     for n in prog["inputs"] + prog["outputs"]:
         if n not in ports:
             ports.append(n)
-    txt = "module" + W() + prog["name"] + w() + "(" + w() + ("," + w()).join(ports) + w() + ");\n"
+    txt = "module" + W() + prog["name"] + w() + "(" + w() + ("," + W()).join(ports) + w() + ");\n"
     for kw, ns in (("input", prog["inputs"]), ("output", prog["outputs"]), ("wire", prog["wires"])):
-        for n in ns:
-            txt += w() + kw + " " + w() + n + w() + ";\n"
+        ns = list(ns)
+        while ns:      # one net per declaration (the writer) or several (synthesis tools)
+            k = 1 if rng.random() < 0.5 else rng.randint(1, len(ns))
+            txt += w() + kw + " " + w() + ("," + W()).join(ns[:k]) + w() + ";\n"
+            ns = ns[k:]
     for s in stm:
         txt += w() + s + "\n"
     return txt + "endmodule\n"
